@@ -20,6 +20,13 @@ Added after the second and third seeding rounds:
   resize-covers-index  a growth site of an id-indexed table computes the new length from the index about to be used
   poll-only-where-the-provider-is-fetched  cancellation is polled in the cache only in get_or_cache_candidates / _dependencies
                 (Conflict::graph unwraps the derived caches)
+
+Added after the fifth and sixth seeding rounds:
+  unreachable-arms   the `Conflict(_) => unreachable!()` arms in conflict.rs are protected by a test on the whole Conflict variant (C04-13)
+  recursion-census   a function on the solve / rendering path that calls itself must be in the reviewed table with its termination
+                     argument (C04-17: a memoized recursive rewrite of get_installable_set never returns on a cyclic conflict graph)
+  core(verdict)      the trail discipline behind the `expect("bug: ...")` sites: implied decisions at the current level, backjump to the
+                     learnt clause's level, undo in step with the map (C04-16); rules/core.py
 """
 import json, os
 from common import *
